@@ -22,7 +22,7 @@ EXPLANATION = (
     "pass is_extended_id = can_id > 0x7FF and id/data/remote from their parameters; R5 the error/remote filter "
     "dominates notify in the listener; R6 scanner: append guarded by not-in, != 0 and service in SERVICES, SERVICES = "
     "predefined connection set, masks 0x780/0x7F and ids above 0x7FF excluded; R7 every library call of unsubscribe "
-    "names its callback. R9 no class-level mutable object is mutated in place by instances (each node/client/map/dictionary has its own state)."
+    "names its callback; R9 structural assumptions shared by all properties: no class-level mutable object is mutated in place by instances, no method re-runs the constructor, logging statements cannot raise."
 )
 ASSUMPTIONS = [
     "not decided: arbitrary histories including re-entrant subscribe/unsubscribe from inside a callback",
